@@ -171,5 +171,5 @@ func goSliceDelete(obj *object, name string, throw bool) bool {
 		return obj.runtime.typeErrorResult(throw)
 	}
 
-	return obj.delete(name, throw)
+	return objectDelete(obj, name, throw)
 }
